@@ -456,6 +456,68 @@ func c19Order(p *Prog, rp *Report) {
 		}
 		fillProblems(r, key, pos, problems, "eight sources with the dependencies in this field: a permutation with lib before tool and app, gtk before doc-tools, gtk-doc before tools")
 	}
+	// the same eight sources, each parsed from an ordinary multi-binary .dsc (the decoder included)
+	{
+		key := "control.OrderDSCForBuild:from-dsc-documents"
+		r9 := newC09Run(p)
+		arr := &ArrayV{}
+		why := ""
+		for i, s := range scenario {
+			bins := strings.Join(s.bins, ", ")
+			if len(s.bins) > 1 {
+				bins = strings.Join(s.bins, ",\n ") // folded, as dpkg-source writes long lists
+			}
+			text := "Format: 3.0 (quilt)\nSource: " + s.name + "\nBinary: " + bins + "\nArchitecture: any all\nVersion: 1.0-" + fmt.Sprint(i+1) + "\nMaintainer: A <a@b>\n"
+			if s.deps != "" {
+				text += []string{"Build-Depends", "Build-Depends-Arch", "Build-Depends-Indep"}[i%3] + ": " + s.deps + "\n"
+			}
+			text += "Files:\n 0123456789abcdef0123456789abcdef 10 " + s.name + "_1.0.tar.gz\n"
+			obj, isErr, w := r9.unmarshal(dscT, text)
+			if w != "" || isErr {
+				why = fmt.Sprintf("decoding the .dsc of %s: %s (rejected: %v)", s.name, w, isErr)
+				break
+			}
+			arr.E = append(arr.E, cloneVal(r9.st.Heap[obj].V))
+		}
+		if why == "" {
+			aid := r9.st.alloc(types.NewArray(dscT, int64(len(arr.E))), arr)
+			ret, w := r9.call(fn, SliceV{Obj: aid, Len_: len(arr.E), Cap: len(arr.E)}, mkStruct(archT, map[string]Val{"ABI": "gnu", "OS": "linux", "CPU": "amd64"}))
+			why = w
+			if why == "" {
+				tv := ret.(*TupleV)
+				var problems []string
+				if _, errNil := tv.E[1].(nilV); !errNil {
+					problems = append(problems, "an acyclic set of sources parsed from .dsc files is rejected")
+				} else {
+					elems, _, _ := r9.m.sliceElems(r9.st, tv.E[0])
+					idx := map[string]int{}
+					var order []string
+					for i, e := range elems {
+						if sv, ok := e.(*StructV); ok {
+							n, _ := sv.F[fieldIndex(structOf(dscT), "Source")].(string)
+							idx[n] = i
+							order = append(order, n)
+						}
+					}
+					if len(order) != len(scenario) || len(idx) != len(scenario) {
+						problems = append(problems, fmt.Sprintf("the result %v is not a permutation of the %d sources", order, len(scenario)))
+					} else {
+						for _, e := range edges {
+							if idx[e[0]] > idx[e[1]] {
+								problems = append(problems, fmt.Sprintf("%s is ordered before %s, which builds a binary it build-depends on (sources parsed from .dsc documents; %s lists its binaries folded over two lines): %v", e[1], e[0], e[0], order))
+							}
+						}
+					}
+				}
+				fillProblems(r, key, pos, problems, "eight sources decoded from .dsc documents (a folded multi-binary list, the dependencies spread over the three fields): providers precede their dependents")
+			}
+		}
+		if strings.HasPrefix(why, "PANIC") {
+			r.bad(key, pos, "ordering sources parsed from .dsc documents panics: "+why, nil)
+		} else if why != "" {
+			r.undecided(key, pos, why)
+		}
+	}
 	order, errNil, why := run("BuildDepends", []src{{"x", []string{"x-bin"}, "y-bin"}, {"y", []string{"y-bin"}, "x-bin"}, {"z", []string{"z-bin"}, ""}})
 	switch {
 	case strings.HasPrefix(why, "PANIC"):
